@@ -9,6 +9,7 @@ import (
 	"errors"
 	"fmt"
 	"os"
+	"runtime"
 	"sort"
 	"strings"
 	"sync"
@@ -174,6 +175,7 @@ type zzSim struct {
 	midCutArmed        bool
 	midCuts            int // cuts that landed inside a write so far
 	lastMidCutStep     int
+	midCutsExcusable   int // cuts inside a write after which the recorded forwarding finding is possible
 	midCutConn         int // connection whose Bob-side link was told to stop inside a write (-1: none)
 	paysDoneAfterFault int
 	stepNo             int
@@ -1325,6 +1327,23 @@ func (s *zzSim) faultArmMidCut(conn int) {
 		s.midCutConn = conn
 		zl := s.nodes[zzB].links[conn]
 		sw := s.nodes[zzB].sw
+		// Where did the cut land? The recorded lnd finding (a forward given
+		// up after CommitCircuits) needs the quit to close between the
+		// shutdown check at the top of Switch.ForwardPackets and the
+		// hand-over to the forwarder; the only write in between is
+		// CommitCircuits. If the quit becomes visible at once, on the cut
+		// link's own goroutine, in any OTHER write, that link meets the
+		// closed quit at its next check before it commits any circuit, so
+		// a stranded forward cannot be that finding.
+		buf := make([]byte, 32<<10)
+		st := string(buf[:runtime.Stack(buf, false)])
+		inCommit := strings.Contains(st, "(*circuitMap).CommitCircuits")
+		self := strings.Contains(st, fmt.Sprintf(".(*channelLink).htlcManager(%p", zl.link))
+		if quitNow && self && !inCommit {
+			s.stat["fault_cut_inside_write_own_goroutine_outside_commit_circuits"]++
+		} else {
+			s.midCutsExcusable++
+		}
 		s.mu.Unlock()
 		if quitNow {
 			zl.link.cg.Quit()
